@@ -64,8 +64,9 @@ def _root(node):
 
 
 class FnScan:
-    def __init__(self, module, qual, fn, cls, module_globals):
+    def __init__(self, module, qual, fn, cls, module_globals, outer=None):
         self.module, self.qual, self.fn, self.cls = module, qual, fn, cls
+        self.outer = outer           # the enclosing function's scan: free names of a nested function are its locals
         self.module_globals = module_globals
         a = fn.args
         self.params = [x.arg for x in a.posonlyargs + a.args + a.kwonlyargs]
@@ -143,6 +144,8 @@ class FnScan:
     def name_class(self, name, depth=0):
         if self.selfname and name == self.selfname:
             return "self"
+        if name == "missing":
+            return "fresh"              # the engine's sentinel singleton: never written through
         if name in self.bind and depth <= 12:
             if name in self._resolving:
                 return "fresh"          # a binding in terms of itself (x = x[1:]) adds nothing
@@ -161,6 +164,10 @@ class FnScan:
             return "fresh"
         if name in self.params:
             return "param:" + name
+        if self.outer is not None:
+            c = self.outer.name_class(name, depth + 1)
+            if c != "unknown":
+                return c
         if name in self.module_globals:
             return "global:" + name
         return "unknown"
@@ -345,18 +352,19 @@ def scan_source(src, module):
                 module_globals.add((a.asname or a.name).split(".")[0])
     rows = []
 
-    def visit(node, qual, cls):
+    def visit(node, qual, cls, outer):
         for ch in ast.iter_child_nodes(node):
             if isinstance(ch, ast.ClassDef):
-                visit(ch, qual + [ch.name], ch.name)
+                visit(ch, qual + [ch.name], ch.name, None)
             elif isinstance(ch, (ast.FunctionDef, ast.AsyncFunctionDef)):
-                fs = FnScan(module, ".".join(qual + [ch.name]), ch, cls if isinstance(node, ast.ClassDef) else None, module_globals)
+                fs = FnScan(module, ".".join(qual + [ch.name]), ch, cls if isinstance(node, ast.ClassDef) else None, module_globals,
+                            outer if not isinstance(node, ast.ClassDef) else None)
                 rows.extend(fs.rows())
-                visit(ch, qual + [ch.name], None)
+                visit(ch, qual + [ch.name], None, fs)
             else:
-                visit(ch, qual, cls)
+                visit(ch, qual, cls, outer)
 
-    visit(tree, [], None)
+    visit(tree, [], None, None)
     return rows
 
 
